@@ -598,7 +598,14 @@ func sendUDP(r *stack.Route, data buffer.VectorisedView, localPort, remotePort u
 		for _, v := range data.Views() {
 			xsum = header.Checksum(v, xsum)
 		}
-		udp.SetChecksum(^udp.CalculateChecksum(xsum, length))
+		c := ^udp.CalculateChecksum(xsum, length)
+		// RFC 768: a computed checksum of zero is transmitted as all
+		// ones; an all-zero field means that no checksum was generated
+		// (and is not allowed over IPv6 at all).
+		if c == 0 {
+			c = 0xffff
+		}
+		udp.SetChecksum(c)
 	}
 
 	// Track count of packets sent.
